@@ -51,13 +51,14 @@ def build(c, key):
     # a third of the enums name their last variant with a raw identifier (accessors: is_fn, unwrap_fn, ...)
     NAMES = [("Foo", "foo"), ("FooBar", "foo_bar"), ("Ab", "ab"), ("Quux", "quux")]
     pick = vlib.seeded_pick(key, 11, 6)
-    if pick == 0:
+    if pick == 0 and len(c["vs"]) <= 4:
         NAMES[len(c["vs"]) - 1] = ("r#fn", "fn")
     elif pick == 1:
         # underscores are word boundaries, never part of a word: leading, doubled and trailing ones vanish
         NAMES = [("_Phantom", "phantom"), ("Left__Right", "left_right"), ("Trailing_", "trailing"), ("Q_", "q")]
     elif pick == 2:
         NAMES = [("Plain_Name", "plain_name"), ("lower", "lower"), ("X", "x"), ("Yz", "yz")]
+    NAMES = NAMES + [("W" + ch, "w" + ch) for ch in "abcdefghijklm"]      # (the seventeen-variant enum)
     vs = c["vs"]
     # (a named variant that is IGNORED takes no accessor: Unwrap / TryUnwrap are derivable next to it, and its values still
     # reach the other variants' accessors)
@@ -141,7 +142,7 @@ def build(c, key):
     # ---- extension (Variants.tla, "the TEXTS of the failure paths"): TLC's texts are for the naming Foo/FooBar/Ab/Quux of
     # an enum called E; for a renamed enum the same formula is rendered from the emitted structure (and the rendering is
     # checked against TLC's text on every default-named enum, so the two cannot drift apart)
-    default_names = [("Foo", "foo"), ("FooBar", "foo_bar"), ("Ab", "ab"), ("Quux", "quux")]
+    default_names = [("Foo", "foo"), ("FooBar", "foo_bar"), ("Ab", "ab"), ("Quux", "quux")] + [("W" + ch, "w" + ch) for ch in "abcdefghijklm"]
     texts = c.get("texts")
     FORMS_SUFFIX = {"owned": "", "ref": "_ref", "ref_mut": "_mut"}
 
